@@ -11,6 +11,7 @@ import (
 	"strings"
 
 	"github.com/scigolib/hdf5/internal/core"
+	"github.com/scigolib/hdf5/internal/structures"
 	"github.com/scigolib/hdf5/internal/writer"
 )
 
@@ -341,7 +342,7 @@ func init() {
 			sb2.BaseAddress = 0
 			oh, err := core.ReadObjectHeader(bytes.NewReader(data), addr, &sb2)
 			if err != nil {
-				if strings.Contains(err.Error(), "continuation block") {
+				if strings.Contains(err.Error(), "continuation") {
 					return vl{"636f6e74"}, nil // "cont": continuation blocks are outside the model
 				}
 				return nil, err
@@ -389,6 +390,19 @@ func init() {
 				return nil, err
 			}
 			return vl{lm.Version, lm.Flags, uint8(lm.Type), lm.CreationOrder, lm.CharSet, vBytes([]byte(lm.Name)), vBytes(lm.LinkValue)}, nil
+		},
+	}
+
+	// the second decoder of the same message (internal/structures/linkmessage.go), used by the group reader
+	c11Codecs["link2"] = c11Codec{
+		enc: c11Codecs["link"].enc,
+		dec: func(data []byte, sb *core.Superblock) (interface{}, error) {
+			lm, err := structures.ParseLinkMessage(data, sb)
+			if err != nil {
+				return nil, err
+			}
+			return vl{lm.Version, lm.Flags, uint8(lm.Type), vBytes([]byte(lm.Name)), uint64(lm.CreationOrder), vBool(lm.CreationOrderValid),
+				lm.CharacterSet, lm.ObjectAddress, vBytes([]byte(lm.TargetPath))}, nil
 		},
 	}
 
